@@ -17,8 +17,8 @@ M("c06_engine_arith_overflow", ["C06", "C03"], "bounds", tier="quick", overflow=
   assumptions=["operands that depend on fields of existing state, results of other calls, operators the encoder does not model or loop-carried values are undecided (counted in the evidence), never violations",
                "lengths are <= isize::MAX; x.len() of an object not borrowed mutably in between returns the same number; named integer consts are evaluated from their MIR bodies"],
   fns=[r"engine\.rs.*>::\w+$", r"executor\.rs.*>::\w+$"], skip=[r"closure"], msg=r"which would overflow")
-M("c06_reservation_bounded", ["C06"], "alloc_bound", tier="quick", limit=2**40, len_max=2**32,
-  desc="no reservation sized by an unchecked request number: at every Vec/VecDeque/HashMap with_capacity / reserve / resize / vec![x; n] call in the crate whose size is built from inputs (integer parameters, fields of by-value command parameters, str::parse results), lengths of existing collections and constants, the size cannot exceed 2^40 when every existing collection holds at most 2^32 elements (SETRANGE/SETBIT offsets, SRANDMEMBER -count, declared RESP/RDB lengths ...)",
+M("c06_reservation_bounded", ["C06", "C10"], "alloc_bound", tier="quick", limit=2**40, len_max=2**32, input_calls=[r"::read_length$", r"::read_u32$", r"::read_u64$"],
+  desc="no reservation sized by an unchecked request number: at every Vec/VecDeque/HashMap with_capacity / reserve / resize / vec![x; n] call in the crate whose size is built from inputs (integer parameters, fields of by-value command parameters, str::parse results), lengths of existing collections and constants, the size cannot exceed 2^40 when every existing collection holds at most 2^32 elements (SETRANGE/SETBIT offsets, SRANDMEMBER -count, declared RESP/RDB lengths ...); length fields read from a dump file (results of RdbReader::read_length / read_u32 / read_u64) count as inputs",
   assumptions=["sizes that depend on fields of existing state, unmodelled calls/operators or loop-carried values are undecided, never violations",
                "constructors (::new, ::with_config, ::with_capacity: sizes from the configuration), the replication client (lengths announced by the master, not a client) and test modules are skipped"],
   fns=[r"."], skip=[r"closure", r"^const ", r"tests::", r"config::", r"main", r"::new$", r"::with_config$", r"::with_capacity$", r"replication"])
